@@ -8,7 +8,7 @@ import warnings
 
 import numpy as np
 
-from .. import faults, own, par, sim
+from .. import faults, own, par, sim  # noqa
 
 PID = "C17"
 LEVEL = "fault_enumeration"
@@ -168,8 +168,90 @@ def judge_file(path, spec, k, final):
     return out
 
 
+def cli_run(spec, tmp, flags, stage=None, fname="out.fits"):
+    """`nuspacesim run <toml> -o <file> <flags>` in-process (click runner), nondeterminism owned; returns
+    (exit_code, in-memory table compute() returned or None, path)"""
+    import dask
+    from click.testing import CliRunner
+
+    import nuspacesim.apps.run as R
+    from nuspacesim.config import create_toml
+
+    toml = os.path.join(tmp, "c.toml")
+    path = os.path.join(tmp, fname)
+    create_toml(toml, cfg_of(spec))
+    real = R.compute
+    cap = {}
+
+    def capture(*a, **k):
+        t = real(*a, **k)
+        cap["t"] = t.copy()
+        return t
+
+    R.compute = capture
+    try:
+        with warnings.catch_warnings():
+            warnings.simplefilter("ignore")
+            with own.frozen_clock(), own.null_progress(), dask.config.set(scheduler="synchronous"), faults.stage_fault(stage):
+                np.random.seed(spec.get("seed", 11))
+                res = CliRunner().invoke(R.run, [toml, "-o", path] + list(flags))
+    finally:
+        R.compute = real
+    return res.exit_code, cap.get("t"), path, res
+
+
+def judge_cli(spec, flags, stage):
+    """the command line: -w writes the prefixes (with or without -n), a failing stage leaves the last prefix and a
+    non-zero exit, and without -w nothing but the final result file (none at all with -n) is written"""
+    out = []
+    tmp = tempfile.mkdtemp(prefix="nssmc_c17cli_")
+    try:
+        code, final, _, res = cli_run(spec, os.path.join(tmp, ""), ("-w",), None, "ref.fits")
+        if code != 0 or final is None:
+            return [("cli_unfaulted_run_completes", "exit 0", f"exit {code}: {str(res.exception)[:100]}")]
+        K = len(model(spec["mode"], spec["optical"], spec["radio"])) if len(final) else 1
+        out += [(c, f"reference run -w: {e}", o) for c, e, o in judge_file(os.path.join(tmp, "ref.fits"), spec, K, final)]
+        os.remove(os.path.join(tmp, "ref.fits"))
+        before = sorted(os.listdir(tmp))
+        code, t, path, res = cli_run(spec, os.path.join(tmp, ""), flags, stage)
+        w, n = "-w" in flags, "-n" in flags
+        if stage is None:
+            if code != 0:
+                out.append(("cli_run_completes", f"exit 0 for flags {list(flags)}", f"exit {code}: {str(res.exception)[:100]}"))
+            elif w or not n:
+                out += [(c, f"flags {list(flags)}: {e}", o) for c, e, o in judge_file(path, spec, K, final)]
+            else:
+                after = sorted(os.listdir(tmp))
+                if os.path.exists(path) or before != after:
+                    out.append(("nothing_written_when_disabled", f"flags {list(flags)}: no file", [x for x in after if x not in before]))
+        else:
+            kb = boundary_before_stage(spec["mode"], spec["optical"], spec["radio"], stage)
+            if kb is None:
+                return out
+            if code == 0:
+                out.append(("exception_propagates", f"non-zero exit when stage {stage} fails (flags {list(flags)})", "exit 0"))
+            if w:
+                out += [(c, f"flags {list(flags)}, stage {stage} fails: {e}", o) for c, e, o in judge_file(path, spec, kb, final)]
+            elif os.path.exists(path):
+                out.append(("nothing_written_when_disabled", f"flags {list(flags)}, stage {stage} fails: no file", "file exists"))
+    finally:
+        shutil.rmtree(tmp, ignore_errors=True)
+    return out
+
+
 def job(a):
     """one (spec, case) job in its own scratch directory"""
+    if a[1][0] == "cli":
+        try:
+            return judge_cli(a[0], tuple(a[1][1]), a[1][2]), {"K": 0, "rows": 1}
+        except Exception as ex:
+            import traceback
+
+            from ..core import raised_in_production
+
+            if raised_in_production(traceback.format_exc()):
+                return [("cli_no_exception", "the command line handles the run", f"{type(ex).__name__}: {str(ex)[:120]}")], None
+            raise
     spec, case = a
     tmp = tempfile.mkdtemp(prefix="nssmc_c17_")
     out = []
@@ -294,6 +376,11 @@ def run(ctx):
         jobs.append((sp, ("crash", K // 2, False)))
         jobs.append((sp, ("stage", "radio_eas" if sp["radio"] else "optical_eas", "error")))
         jobs.append((sp, ("nowrite", None)))
+    # the command line: every combination of -w / -n, un-faulted and with a failing optical / radio stage
+    for sp in (base[0], base[1]):
+        for flags in ((), ("-w",), ("-n",), ("-w", "-n")):
+            for st in (None, "optical_eas", "radio_eas", "taus"):
+                jobs.append((sp, ("cli", tuple(flags), st)))
     for sp in zero:
         jobs.append((sp, ("boundaries",)))
         jobs.append((sp, ("crash", 0, False)))
